@@ -204,11 +204,16 @@ class Shrinker:
         # 3. check-specific simplifications (smaller sizes, rounder times ...)
         simp = getattr(self.mod, "simplify", None)
         if simp is not None:
-            for cand in simp(plan):
-                if self.runs >= self.budget:
-                    break
-                if self.fails(cand, decisions):
-                    plan = cand
+            progress = True
+            while progress and self.runs < self.budget:  # to a fixpoint: candidates are derived from the current plan
+                progress = False
+                for cand in simp(plan):
+                    if self.runs >= self.budget:
+                        break
+                    if cand != plan and self.fails(cand, decisions):
+                        plan = cand
+                        progress = True
+                        break
         # 4. one more pass over ops (dropping decisions often frees ops)
         if isinstance(plan.get("ops"), list) and len(plan["ops"]) > 1:
             def t_ops2(cand):
